@@ -51,6 +51,9 @@ def main():
     meta = dict(seed_id=sid, property=prop, patch='patch.diff', demonstration='demo.py')
     try:
         b = sh([sys.executable, os.path.join(HERE, 'baseline.py'), scratch])
+        if b.returncode != 0:      # (a timing-sensitive test can fail on a loaded machine: decide on a second run)
+            meta['baseline_first_run'] = b.stdout.strip()[:400]
+            b = sh([sys.executable, os.path.join(HERE, 'baseline.py'), scratch])
         meta['baseline_with_change'] = (b.stdout.strip().splitlines() or ['?'])[0]
         env = dict(os.environ)
         d1 = sh(['/venv/bin/python', '-B', os.path.join(out, 'demo.py')], env=dict(env, PYTHONPATH=scratch + '/src'), cwd='/var/tmp')
